@@ -385,6 +385,8 @@ func TestC18(t *testing.T) {
 	}
 	c.Exhaustive("sha1/sha256/sha512 x fixed read size walked over the whole 255*HashLen stream, then refused overshoot, exact remainder, refused extra byte", total)
 
+	c18Concurrent(c, t)
+
 	if k, _ := ev.Shard(); k == 0 && len(pbCases) > 0 {
 		n, err := c18Hashlib(pbCases)
 		switch {
